@@ -92,7 +92,8 @@ func (c *Catalog) Version() string {
 type PageTree struct {
 	root     core.Dict
 	resolver ObjectResolver
-	pages    []*Page // Cached flattened page list
+	pages    []*Page      // Cached flattened page list
+	visited  map[int]bool // Object numbers of the nodes on the path being traversed (cycle guard)
 }
 
 // NewPageTree creates a new page tree from the root pages dictionary
@@ -149,6 +150,7 @@ func (t *PageTree) Pages() ([]*Page, error) {
 // loadPages traverses the page tree and builds the flattened page list
 func (t *PageTree) loadPages() error {
 	t.pages = make([]*Page, 0)
+	t.visited = make(map[int]bool)
 
 	// Start recursive traversal from root
 	if err := t.traversePageNode(t.root, nil); err != nil {
@@ -210,6 +212,18 @@ func (t *PageTree) traversePageNode(node core.Dict, parent core.Dict) error {
 
 		// Traverse each child
 		for i, kidObj := range kids {
+			// A kid that is already on the path from the root means that /Kids leads back to an
+			// ancestor: following it would never end.
+			if ref, ok := kidObj.(core.IndirectRef); ok {
+				if t.visited == nil {
+					t.visited = make(map[int]bool)
+				}
+				if t.visited[ref.Number] {
+					return fmt.Errorf("page tree cycle: object %d is its own ancestor", ref.Number)
+				}
+				t.visited[ref.Number] = true
+			}
+
 			// Resolve child reference
 			kidResolved, err := t.resolver.Resolve(kidObj)
 			if err != nil {
@@ -224,6 +238,9 @@ func (t *PageTree) traversePageNode(node core.Dict, parent core.Dict) error {
 			// Recursively traverse child (passing current node as parent)
 			if err := t.traversePageNode(kidDict, node); err != nil {
 				return err
+			}
+			if ref, ok := kidObj.(core.IndirectRef); ok {
+				delete(t.visited, ref.Number)
 			}
 		}
 
